@@ -348,14 +348,21 @@ class _getitem_slice_u:
     lemmas = lemmas_()
 
     def configs():
-        return [{"form": "a:b"}, {"form": ":b"}, {"form": "a:"}]
+        return [{"form": "a:b"}, {"form": ":b"}, {"form": "a:"}, {"form": "-a:"}, {"form": "a:-b"}, {"form": "-a:-b"}]
 
     def inputs(b):
         n = nbins(b)
-        lo = b.int("a") if b.cfg.form != ":b" else None
-        hi = b.int("b") if b.cfg.form != "a:" else None
-        lo_v, hi_v = (0 if lo is None else lo), (n if hi is None else hi)
-        b.assume(And(0 <= lo_v, lo_v < hi_v, hi_v <= n))        # requires: a non-empty selection inside the bins
+        form = b.cfg.form
+        lo = b.int("a") if not form.startswith(":") else None
+        hi = b.int("b") if not form.endswith(":") else None
+        # requires: the bounds have the signs of the form (negative ones count from the end) and select a non-empty run of bins
+        if lo is not None:
+            b.assume(And(lo < 0, lo >= -n) if form.startswith("-") else And(lo >= 0, lo < n))
+        if hi is not None:
+            b.assume(And(hi < 0, hi > -n) if form.endswith("-b") else And(hi > 0, hi <= n))
+        lo_v = 0 if lo is None else (lo + n if form.startswith("-") else lo)
+        hi_v = n if hi is None else (hi + n if form.endswith("-b") else hi)
+        b.assume(lo_v < hi_v)
         return dict(self=hist1d_t(b, "h", n, "int64", stats=None), index=slice(lo, hi, None))
 
     def invoke(I, fn, a, cfg):
@@ -364,8 +371,12 @@ class _getitem_slice_u:
         return fn(a.self, a.index)
 
     def _bounds(o):
+        """the selected run [lo, hi) of bins, negative bounds counted from the end"""
         n = count_of(o.self)
-        return (0 if o.index.start is None else o.index.start), (n if o.index.stop is None else o.index.stop), n
+        form = o._cfg_form
+        lo = 0 if o.index.start is None else (o.index.start + n if form.startswith("-") else o.index.start)
+        hi = n if o.index.stop is None else (o.index.stop + n if form.endswith("-b") else o.index.stop)
+        return lo, hi, n
 
     def using(a, old, result):
         from pyvc import induct
